@@ -3,6 +3,7 @@ CONSTANTS
   NH = 2
   MaxBlocks = 1
   MaxSteps = 4
+  Bases <- BaseAll
   Layouts <- LaySmall
   Counts <- HostCounts
   Lens <- HostLens
